@@ -153,6 +153,12 @@ def nonascii_strings(rng, count):
 def c04_cases(rng, tier):
     cs = []
     tot = lambda a: a.startswith("ok") or a.startswith("err")
+    # well-formed strings whose memory cost gives a segment longer than one Argon2 address block and not a multiple of it (≈ 0.5–1 MiB)
+    for alg in ("argon2id", "argon2i"):
+        for m in (516, 600, 1000, 1028):
+            st = mkstr(alg, 1 if alg == "argon2id" else 3, m, rbytes(rng, 16), rbytes(rng, 32))
+            cs.append(Case("pwhash_str_verify %s %s" % (shex(st), hx(b"pw")), cls="pwhash_str_verify/segment-not-multiple-of-128", expect=tot, meta={"alloc_bound": 4 << 20, "why": "verify of a well-formed string with m=%d" % m}))
+            cs.append(Case("pwhash_objverify_str %s %s" % (shex(st), hx(b"pw")), cls="pwhash_objverify_str/segment-not-multiple-of-128", expect=tot, meta={"no_sodium": True, "alloc_bound": 4 << 20}))
     # well-formed strings whose cost parameters are at the top of the encodable range (m up to 2³²−1 KiB, i.e. ≥ 4 GiB once multiplied
     # by 1024; t up to 2³²−1): parsed, re-encoded and compared for needs-rehash — never hashed
     for alg in ("argon2id", "argon2i"):
